@@ -1,8 +1,18 @@
-/- Line-protocol driver for the Flow component (stub; see tools/AGENT_GUIDE.md). -/
+/- Line-protocol driver for the Flow component (C17): thin loop around `Driver.flowVerb`. -/
+import Driver.Flow
+open Driver
+
+def dispatchFlow (line : String) : String :=
+  let toks := (line.trimAscii.toString.splitOn " ").filter (· ≠ "")
+  match toks with
+  | [] => ""
+  | "FLOW" :: rest => flowVerb rest
+  | _ => "BADVERB"
+
 partial def loop (h : IO.FS.Stream) (out : IO.FS.Stream) : IO Unit := do
   let line ← h.getLine
   if line.isEmpty then return ()
-  out.putStrLn "BADVERB"
+  out.putStrLn (dispatchFlow line)
   loop h out
 
 def main : IO Unit := do
